@@ -9,32 +9,66 @@ import (
 	"golang.org/x/tools/go/ssa"
 )
 
-// homeMethodEffect havocs the frame of method `name` of every package type that the interface
-// value w may hold (all of them when the tag is symbolic).
+// homeMethodEffect: a library function invoked method `name` on interface value w. If w holds
+// one of the package's own types, that method's frame may have been written: each key of the frame
+// is havocked under the guard "dynamic type is that type".
 func (x *Exec) homeMethodEffect(st *State, w Value, name string) {
 	iv, ok := w.(VIface)
 	if !ok {
 		return
 	}
-	lit, isLit := iv.Tag.Lit()
+	guards := map[string]Term{}
+	sorts := map[string]Sort{}
+	var allGuard Term = TFalse
 	for _, t := range x.eng.concreteTypes {
-		if isLit && lit.Int64() != x.eng.typeTag(t) {
-			continue
-		}
 		sel := x.eng.prog.MethodSets.MethodSet(t).Lookup(x.eng.home, name)
 		if sel == nil {
 			continue
 		}
-		if fn := x.eng.prog.MethodValue(sel); fn != nil && fn.Pkg != nil && x.eng.isHome(fn.Pkg.Pkg) {
-			fs := x.eng.frameOf(fn)
-			if fs.all {
-				x.havocAll(st)
-				return
-			}
-			for _, k := range sortedKeys(fs.keys) {
-				x.havocKey(st, k, fs.keys[k])
+		fn := x.eng.prog.MethodValue(sel)
+		if fn == nil || fn.Pkg == nil || !x.eng.isHome(fn.Pkg.Pkg) {
+			continue
+		}
+		if p, isPtr := t.(*types.Pointer); isPtr {
+			// method sets of *T include T's methods; the interface holds exactly one of them
+			if x.eng.prog.MethodSets.MethodSet(p.Elem()).Lookup(x.eng.home, name) != nil {
+				continue
 			}
 		}
+		g := Eq(iv.Tag, IntLit(x.eng.typeTag(t)))
+		if g.IsFalse() {
+			continue
+		}
+		fs := x.eng.frameOf(fn)
+		if fs.all {
+			allGuard = Or(allGuard, g)
+		}
+		for k, srt := range fs.keys {
+			if cur, has := guards[k]; has {
+				guards[k] = Or(cur, g)
+			} else {
+				guards[k] = g
+			}
+			sorts[k] = srt
+		}
+	}
+	if !allGuard.IsFalse() {
+		s2 := st.clone()
+		x.havocAll(s2)
+		s2.pc = And(st.pc, allGuard)
+		s1 := st.clone()
+		s1.pc = And(st.pc, Not(allGuard))
+		m := x.mergeStates([]edge{{nil, TTrue, s2}, {nil, TTrue, s1}})
+		pc := st.pc
+		*st = *m
+		st.pc = pc
+	}
+	for _, k := range sortedKeys(guards) {
+		old := x.heapGet(st, k, sorts[k])
+		fresh := x.vc.Fresh("H|"+k, sorts[k])
+		x.heapSorts[k] = sorts[k]
+		st.heap[k] = x.vc.Name(Ite(guards[k], fresh, old), "H|"+k)
+		x.written[k] = true
 	}
 }
 
